@@ -29,6 +29,21 @@ def cov_inv_diag(term):
     return np.ones(n)
 
 
+def herm_real(term):
+    """real-coordinate matrix of N^-1 = H H for a dense Hermitian noise operator on ONE complex array leaf
+    (coordinates [re..., im...]): 1/2 r^H N^-1 r = 1/2 [a;b]^T [[Re N, -Im N], [Im N, Re N]] [a;b]"""
+    H = np.array([[complex(*v) for v in r] for r in term["par"]["herm"]])
+    n = H.shape[0]
+    D = np.eye(n)
+    if term["kind"] == "studentt":
+        th = _bcast(term["par"]["dof"], n)
+        D = np.diag((th + 1) / (th + 3))     # r = H (d - y) has independent components: F = H^H D H
+    N = H @ D @ H
+    if not any(l.get("cplx") for l in term["tree"]["leaves"]):
+        return N.real
+    return np.block([[N.real, -N.imag], [N.imag, N.real]])
+
+
 def _expand_cplx(term, per_elem):
     """per-data-element values -> per real coordinate (complex leaves doubled)"""
     out, off = [], 0
@@ -51,6 +66,8 @@ def fisher(term, y):
     """Fisher information matrix of the documented distribution of `term` at parameter value y (real coords)"""
     k = term["kind"]
     y = np.asarray(y, dtype=float)
+    if k in ("gaussian", "studentt") and term["par"].get("herm") is not None:
+        return herm_real(term)
     if k == "gaussian":
         # d ~ N(y, N), real or circular complex with E|d-y|^2 = 2/c per element (energy 1/2 r^H N^-1 r)
         return np.diag(_expand_cplx(term, cov_inv_diag(term)))
